@@ -33,6 +33,9 @@ func (f *Frame) exec(instr ssa.Instruction, g *Term) {
 		if !ok {
 			if p, isP := cv.(Poison); isP && p.dc {
 				// the value only exists on paths that were assumed away (their panic/blocking VC has been raised)
+				if e.trace {
+					e.logf("IF on dc-poison (%s) at %s", p.why, e.pos(in.Pos()))
+				}
 				break
 			}
 			panic(unsupported(fmt.Sprintf("branch on %T (%v) at %s", cv, cv, e.pos(in.Pos()))))
@@ -445,6 +448,9 @@ func (e *Engine) binop(op token.Token, x, y Value, xt, yt types.Type, g *Term, p
 		if !ok {
 			panic(unsupported("string binop kinds"))
 		}
+		if op != token.EQL && op != token.NEQ && (a.hasAtom() || b.hasAtom()) {
+			panic(unsupported("operation " + op.String() + " on an opaque symbolic string at " + e.pos(pos)))
+		}
 		switch op {
 		case token.EQL:
 			return eqV(a, b)
@@ -456,7 +462,7 @@ func (e *Engine) binop(op token.Token, x, y Value, xt, yt types.Type, g *Term, p
 				for _, q := range b.alts {
 					c := And(p.c, q.c)
 					if !c.IsFalse() {
-						out = append(out, StrAlt{c, p.s + q.s})
+						out = append(out, StrAlt{c: c, s: p.s + q.s})
 					}
 				}
 			}
@@ -498,7 +504,7 @@ func normStr(alts []StrAlt) StringV {
 	for _, a := range alts {
 		found := false
 		for i := range out {
-			if out[i].s == a.s {
+			if out[i].s == a.s && out[i].atom == a.atom {
 				out[i].c = Or(out[i].c, a.c)
 				found = true
 				break
@@ -827,6 +833,9 @@ func (e *Engine) indexValue(x, idx Value, xt, it types.Type, g *Term, pos token.
 }
 
 func (e *Engine) strIndex(v StringV, i *Term, g *Term, pos token.Pos) Value {
+	if v.hasAtom() {
+		panic(unsupported("index of an opaque symbolic string at " + e.pos(pos)))
+	}
 	var res *Term
 	for k := len(v.alts) - 1; k >= 0; k-- {
 		al := v.alts[k]
@@ -891,7 +900,7 @@ func (f *Frame) slice(in *ssa.Slice, g *Term) Value {
 				e.panicVC("string slice bounds", in.Pos(), And(g, al.c))
 				continue
 			}
-			out = append(out, StrAlt{al.c, al.s[l:h]})
+			out = append(out, StrAlt{c: al.c, s: al.s[l:h]})
 		}
 		if len(out) == 0 {
 			return Poison{"string slice out of bounds", true}
